@@ -1194,7 +1194,7 @@ def _check(run, impl, summary, built, join_perrun):
     model = None
     if built:
         try:
-            model = core.coq_eval_sharded(PREAMBLE, [c["term"] for c in cases], "run", "rrun", shard=160, timeout=900)
+            model = core.coq_eval_sharded(PREAMBLE, [c["term"] for c in cases], "run", "rrun", shard=110, timeout=900, jobs=16)
         except core.CoqEvalError as e:
             run.obligation("model evaluation (vm_compute) of the generated functions", False, str(e)[-1200:])
     stages["model evaluation (vm_compute, parallel shards)"] = round(time.time() - t_start - sum(stages.values()), 1)
